@@ -232,6 +232,20 @@ register('C18',
          'Coq proof (max/as-of lemma + reachable-state invariant) + vm_compute replay of recorded traces',
          'DESIGN.md §7 C18')
 
+register('C06',
+         'PARTIAL. Coq theorems over the Layer-B machine: whatever happened inside a transaction (any number of flushes, any partial work), '
+         'a rollback restores the committed database and the initial unit of work; from a transaction boundary, run (p1 ++ failed ++ '
+         '[Rollback] ++ rest) = run (p1 ++ rest) as whole states - the rest of the program is versioned exactly as if the rolled-back '
+         'transaction had never been attempted. Savepoints: the database part is restored exactly; the whole state only when the inner '
+         'work left the unit of work unchanged - the full savepoint clause is refuted by a recorded open finding. Tie to the code: fault '
+         'injection through before_cursor_execute at statement boundaries of a chosen transaction (quick: first, last, 4 random; '
+         'thorough: every boundary), comparing all tables and the manager maps after the rollback with the state before, and the final '
+         'tables with the run from which the failed transaction is deleted; savepoint histories with versioned and non-versioned inner work.',
+         COMMON_NOTE + 'Process death (torn files) is the database journal\'s business and cannot be exhibited by the model (atomic database by '
+         'assumption). The injected failure is an exception raised before the statement is sent.',
+         'Coq proof (state equality + determinism of the step function) + fault enumeration at statement boundaries + vm_compute replay',
+         'DESIGN.md §7 C06')
+
 ALL = ['C%02d' % i for i in range(1, 21)]
 
 
